@@ -87,9 +87,9 @@ class LoopSpec:
     frame_check(ex, fr, snapshot) optional: extra obligations that nothing else changed
     """
 
-    def __init__(self, header, invariant, havoc=None, name=None, snapshot=None, frame_check=None, seq=None):
+    def __init__(self, header, invariant, havoc=None, name=None, snapshot=None, frame_check=None, seq=None, modifies=None):
         self.header, self.invariant, self.havoc, self.name = header, invariant, havoc, name
-        self.snapshot, self.frame_check, self.seq = snapshot, frame_check, seq
+        self.snapshot, self.frame_check, self.seq, self.modifies = snapshot, frame_check, seq, modifies
 
 
 class Ex:
@@ -1316,6 +1316,9 @@ class Ex:
             self.setattr(obj, t.attr, self.inplace(s.op, cur, self.ev(s.value, fr), fr), fr)
         elif isinstance(t, ast.Subscript):
             obj, idx = self.ev(t.value, fr), self.ev(t.slice, fr)
+            if self.is_arr(obj) and self.is_arr(idx):
+                from . import arrays
+                return arrays.arr_mask_inplace(self, s.op, obj, idx, self.ev(s.value, fr))
             cur = self.getitem(obj, idx, fr)
             self.setitem(obj, idx, self.inplace(s.op, cur, self.ev(s.value, fr), fr), fr)
         else:
@@ -1530,14 +1533,18 @@ class Ex:
                 raise Unsupported("loop spec on a non-symbolic sequence")
         snap = spec.snapshot(self, fr) if spec.snapshot else None
         # 1. invariant holds on entry
-        st.oblige(f"{name}.inv_init", spec.invariant(self, fr, z3.IntVal(0)), {"loop": header})
+        self.oblige_inv(f"{name}.inv_init", spec.invariant(self, fr, z3.IntVal(0)), header)
         # 2. arbitrary iteration or exit
         mode = st.choose([True, True])
         k = st.fresh_int("k")
         body_assigned = self.assigned_names(s.body + ([ast.Expr(value=s.target)] if False else []))
+        declared0 = set(spec.modifies(self, fr)) if getattr(spec, "modifies", None) else set()
         for nm in body_assigned:
             if nm in fr.locals:
-                fr.locals[nm] = spec_h(self, fr, nm) if (spec_h := getattr(spec, "havoc_local", None)) else self.havoc_like(fr.locals[nm], nm)
+                cur = fr.locals[nm]
+                if isinstance(cur, VRef) and cur.addr in declared0:
+                    continue        # rebinding by an in-place operator; the cell itself is havocked by the spec
+                fr.locals[nm] = self.havoc_like(cur, nm)
         if spec.havoc:
             spec.havoc(self, fr, k)
         if mode == 0:      # generic iteration k
@@ -1545,19 +1552,25 @@ class Ex:
                 st.assume(z3.And(k >= 0, k < seq.n))
             else:
                 st.assume(k >= 0)
-            st.assume(spec.invariant(self, fr, k))
+            self.assume_inv(spec.invariant(self, fr, k))
             if isinstance(s, ast.For):
                 self.assign(s.target, seq.get(k), fr)
             else:
                 if not st.branch(self.truth(self.ev(s.test, fr), fr)):
                     raise PathEnd("while-condition false in generic iteration")
+            declared = set(spec.modifies(self, fr)) if getattr(spec, "modifies", None) else set()
+            before = self.heap_fingerprint()
             try:
                 self.exec_block(s.body, fr)
             except _Continue:
                 pass
             except _Break:
                 raise Unsupported("break inside a loop with invariant")
-            st.oblige(f"{name}.inv_preserved", spec.invariant(self, fr, k + 1), {"loop": header})
+            after = self.heap_fingerprint()
+            for addr, fp in before.items():
+                if addr not in declared and after.get(addr) != fp:
+                    raise Unsupported(f"loop body modifies a heap object that the loop contract does not declare (addr {addr})")
+            self.oblige_inv(f"{name}.inv_preserved", spec.invariant(self, fr, k + 1), header)
             if spec.frame_check:
                 spec.frame_check(self, fr, snap, name)
             raise PathEnd("generic loop iteration done")
@@ -1566,10 +1579,37 @@ class Ex:
             st.assume(k == seq.n)
         else:
             st.assume(k >= 0)
-        st.assume(spec.invariant(self, fr, k))
+        self.assume_inv(spec.invariant(self, fr, k))
         if isinstance(s, ast.While):
             st.assume(z_not(self.truth(self.ev(s.test, fr), fr)))
         self.exec_block(s.orelse, fr)
+
+    def oblige_inv(self, name, inv, header):
+        if isinstance(inv, dict):
+            for label, f in inv.items():
+                self.st.oblige(f"{name}[{label}]", f, {"loop": header}, assume_after=False)
+            for f in inv.values():
+                self.st.assume(f)
+        else:
+            self.st.oblige(name, inv, {"loop": header})
+
+    def assume_inv(self, inv):
+        for f in (inv.values() if isinstance(inv, dict) else [inv]):
+            self.st.assume(f)
+
+    def heap_fingerprint(self):
+        """Identity fingerprint of every heap cell (used to detect undeclared writes in loop bodies)."""
+        out = {}
+        for addr, cell in self.st.heap.items():
+            if isinstance(cell, HArr):
+                out[addr] = ("arr", id(cell._elem), tuple(map(str, cell.shape)), str(cell.dtype.v))
+            elif isinstance(cell, HObj):
+                out[addr] = ("obj", tuple((k, id(v)) for k, v in cell.fields.items()))
+            elif isinstance(cell, HList):
+                out[addr] = ("list", tuple(id(v) for v in cell.items))
+            elif isinstance(cell, HDict):
+                out[addr] = ("dict", tuple((id(k), id(v)) for k, v in cell.items))
+        return out
 
     def ex_Match(self, s, fr):
         subj = self.ev(s.subject, fr)
